@@ -226,6 +226,7 @@ impl RawUnprocessedJSONArray {
                     token = ["".to_string(), char.to_string()].join(SYMBOL.empty_string);
                     let mut number_of_open_square_brackets = 1;
                     let mut number_of_closed_square_brackets = 0;
+                    let mut is_inside_string = false;
 
                     let mut read_nested_array = true;
                     while read_nested_array {
@@ -242,13 +243,18 @@ impl RawUnprocessedJSONArray {
                         bytes_read = bytes_read + length as i128;
                         let char = RawUnprocessedJSONArray::read_utf8(char_buffer)?.chars().last().unwrap();
 
-                        let is_open_square_bracket = char == '[';
+                        // a bracket inside a string is text, not nesting
+                        if char == '\"' && !token.ends_with('\\') {
+                            is_inside_string = !is_inside_string;
+                        }
+
+                        let is_open_square_bracket = char == '[' && !is_inside_string;
                         if is_open_square_bracket {
                             number_of_open_square_brackets = number_of_open_square_brackets + 1;
                         }
 
 
-                        let is_close_square_bracket = char == ']';
+                        let is_close_square_bracket = char == ']' && !is_inside_string;
                         if is_close_square_bracket {
                             number_of_closed_square_brackets = number_of_closed_square_brackets + 1;
                         }
@@ -269,6 +275,7 @@ impl RawUnprocessedJSONArray {
                     token = ["".to_string(), char.to_string()].join(SYMBOL.empty_string);
                     let mut number_of_open_curly_braces = 1;
                     let mut number_of_closed_curly_braces = 0;
+                    let mut is_inside_string = false;
 
                     let mut read_nested_object = true;
                     while read_nested_object {
@@ -285,13 +292,18 @@ impl RawUnprocessedJSONArray {
                         bytes_read = bytes_read + length as i128;
                         let char = RawUnprocessedJSONArray::read_utf8(char_buffer)?.chars().last().unwrap();
 
-                        let is_open_curly_brace = char == '{';
+                        // a bracket inside a string is text, not nesting
+                        if char == '\"' && !token.ends_with('\\') {
+                            is_inside_string = !is_inside_string;
+                        }
+
+                        let is_open_curly_brace = char == '{' && !is_inside_string;
                         if is_open_curly_brace {
                             number_of_open_curly_braces = number_of_open_curly_braces + 1;
                         }
 
 
-                        let is_close_curly_brace = char == '}';
+                        let is_close_curly_brace = char == '}' && !is_inside_string;
                         if is_close_curly_brace {
                             number_of_closed_curly_braces = number_of_closed_curly_braces + 1;
                         }
